@@ -12,7 +12,7 @@ def scenarios(rng: random.Random, n: int, thorough: bool):
     scs = []
     for i in range(n):
         mode = ["vertical", "downward", "slow", "zero_velocity", "high_station", "beyond_reach", "drop_limit", "alt_limit",
-                "vel_limit", "two_limits"][i % 10]
+                "vel_limit", "simultaneous"][i % 10]
         p = shots.gen_shot(rng, winds=rng.choice([0, 1]), look=0.0)
         lim = {}
         rng_ft = rng.choice([900.0, 3000.0])
@@ -43,17 +43,50 @@ def scenarios(rng: random.Random, n: int, thorough: bool):
         elif mode == "vel_limit":
             lim = {"cMinimumVelocity": p["mv_fps"] * rng.choice([0.5, 0.8, 0.97])}
             rng_ft = 6000.0
-        elif mode == "two_limits":
-            # limits placed so that several are crossed close together (precedence Vel > Drop > Alt)
-            p["mv_fps"] = 300.0
-            lim = {"cMinimumVelocity": 295.0, "cMaximumDrop": -0.3, "cMinimumAltitude": p["alt_ft"] - 0.3}
         cfg = {"max_calc_step_size_feet": rng.choice([1.0, 2.0, 5.0]), **lim}
+        if mode == "simultaneous":
+            # several limits first violated in the SAME integration step (precedence Vel > Drop > Alt): a dry run picks a
+            # step and the limits are placed between its pre- and post-state
+            p["mv_fps"] = rng.choice([400.0, 900.0, 2500.0])
+            p["rel_rad"] = -0.01
+            lim = simultaneous_limits(rng, p, cfg, rng_ft)
+            cfg.update(lim)
         if thorough and rng.random() < 0.2:
             cfg.pop("max_calc_step_size_feet")
         scs.append({"shot": p, "cfg": cfg, "tid": 0, "mode": mode, "range_ft": rng_ft, "unit": "Foot",
                     "step_ft": rng_ft / rng.choice([5, 20]), "extra": rng.random() < 0.4, "watchdog_s": 90,
                     **({"time_step": 0.2} if mode in ("vertical",) else {})})
     return scs
+
+
+def simultaneous_limits(rng, p, cfg, rng_ft):
+    from pbv import integ
+    import py_ballisticcalc as m
+    core.reset_world()
+    shot = shots.build_shot(p)
+    calc = shots.build_calc({**cfg, "cMinimumVelocity": 0.0, "cMaximumDrop": -1e6, "cMinimumAltitude": -1e6})
+    rec = integ.Recorder().install()
+    try:
+        calc.fire(shot, m.Unit.Foot(rng_ft), m.Unit.Foot(rng_ft / 4))
+    except m.RangeError:
+        pass
+    finally:
+        rec.remove()
+    its = rec.calls[-1]["iters"]
+    j = rng.randrange(len(its) // 3, max(len(its) // 3 + 1, len(its) - 2))
+    pre, post = its[j], its[j]
+    v0, v1 = its[j]["pre_v"].magnitude(), its[j]["post_v"].magnitude()
+    y0, y1 = its[j]["pre_r"].y, its[j]["post_r"].y
+    which = rng.choice([("Vel", "Drop", "Alt"), ("Vel", "Drop"), ("Vel", "Alt"), ("Drop", "Alt")])
+    lim = {}
+    if v1 < v0 and y1 < y0:
+        if "Vel" in which:
+            lim["cMinimumVelocity"] = (v0 + v1) / 2
+        if "Drop" in which:
+            lim["cMaximumDrop"] = (y0 + y1) / 2
+        if "Alt" in which:
+            lim["cMinimumAltitude"] = p["alt_ft"] + (y0 + y1) / 2
+    return lim
 
 
 RELAX = {"Minimum velocity reached": ("cMinimumVelocity", lambda v: v * 0.5 - 1.0),
@@ -85,7 +118,12 @@ def run(chk: core.Check, replay=None) -> None:
             if a["outcome"] == "ok":
                 chk.stratum("completed")
             continue
-        chk.stratum("reason_" + a["summ"]["outcome"].split(":")[1])
+        # strata by what the SPEC side sees violated after the last step (not by the reason the code reports)
+        last_iter = [l for l in a["lines"] if l["ev"] == "Iter"][-1]
+        for nm in last_iter["violLo"]:
+            chk.stratum("limit_" + nm)
+        if len(last_iter["violLo"]) >= 2:
+            chk.stratum("several_limits_in_one_step")
         # ---- (B) the same shot with the limit that fired relaxed: earlier rows must be bit-identical
         name, relax = RELAX[a["reason"]]
         sc2 = copy.deepcopy(sc)
@@ -104,8 +142,8 @@ def run(chk: core.Check, replay=None) -> None:
     loopsuite.validate(chk, "C04", outs, pairs)
     o = next((x for x in outs if x["outcome"] == "RangeError"), outs[0])
     chk.sample({"scenario": o["sc"], "outcome": o["outcome"], "reason": o.get("reason"), "tail_lines": o["lines"][-3:]})
-    chk.require_strata(["reason_Vel", "reason_Drop", "reason_Alt", "completed", "paired_with_relaxed_limit", "mode_vertical",
-                        "mode_zero_velocity", "mode_beyond_reach", "mode_two_limits"])
+    chk.require_strata(["limit_Vel", "limit_Drop", "limit_Alt", "completed", "paired_with_relaxed_limit", "mode_vertical",
+                        "mode_zero_velocity", "mode_beyond_reach", "several_limits_in_one_step"])
     chk.exhaustive = False
     chk.rule.append("design: Integrator.tla C04_* with every subset of violated limits per step and liveness under the gravity assumption; "
                     "code->spec: seeded real shots (vertical, downward, slow, zero-velocity, high station, beyond reach, each limit, "
